@@ -160,6 +160,18 @@ func TestWorker(t *testing.T) {
 			break
 		}
 		runSeed := Mix(seed, HashString(propID), uint64(worker), uint64(i))
+		if d := envInt("VERIF_DUMP_RUN", -1); d >= 0 {
+			// debugging aid: print the full trace of one run index and stop
+			if i != d {
+				continue
+			}
+			r := Execute(t, p, NewTape(runSeed), true)
+			fmt.Printf("run %d seed %d hash %016x\n", i, runSeed, r.Hash)
+			for _, n := range r.Notes {
+				fmt.Println(n)
+			}
+			return
+		}
 		r := Execute(t, p, NewTape(runSeed), false)
 		out.Stats.Add(r)
 		if wantHashes {
